@@ -25,7 +25,11 @@ package apd
 // value of the border between the two decimal digit counts (10^k).
 const digitsTableSize = 128
 
-var digitsLookupTable [digitsTableSize + 1]tableVal
+// The table is built by a variable initializer, not by an init function:
+// package-level variables whose initialization uses it (the pre-rounded
+// constants of const.go go through Round and NumDigits) are then initialized
+// after it.
+var digitsLookupTable = makeDigitsLookupTable()
 
 type tableVal struct {
 	digits  int64
@@ -33,7 +37,8 @@ type tableVal struct {
 	nborder BigInt
 }
 
-func init() {
+func makeDigitsLookupTable() *[digitsTableSize + 1]tableVal {
+	table := new([digitsTableSize + 1]tableVal)
 	curVal := NewBigInt(1)
 	curExp := new(BigInt)
 	for i := 1; i <= digitsTableSize; i++ {
@@ -41,7 +46,7 @@ func init() {
 			curVal.Lsh(curVal, 1)
 		}
 
-		elem := &digitsLookupTable[i]
+		elem := &table[i]
 		elem.digits = int64(len(curVal.String()))
 
 		elem.border.SetInt64(10)
@@ -49,6 +54,7 @@ func init() {
 		elem.border.Exp(&elem.border, curExp, nil)
 		elem.nborder.Neg(&elem.border)
 	}
+	return table
 }
 
 // NumDigits returns the number of decimal digits of d.Coeff.
@@ -111,12 +117,15 @@ func NumDigits(b *BigInt) int64 {
 // 10^3 inclusive.
 const powerTenTableSize = 128
 
-var pow10LookupTable [powerTenTableSize + 1]BigInt
+// Built by a variable initializer for the same reason as digitsLookupTable.
+var pow10LookupTable = makePow10LookupTable()
 
-func init() {
+func makePow10LookupTable() *[powerTenTableSize + 1]BigInt {
+	table := new([powerTenTableSize + 1]BigInt)
 	for i := int64(0); i <= powerTenTableSize; i++ {
-		setBigWithPow(&pow10LookupTable[i], i)
+		setBigWithPow(&table[i], i)
 	}
+	return table
 }
 
 func setBigWithPow(res *BigInt, pow int64) {
